@@ -5,12 +5,14 @@ package models
 // Contracts checked by /verif (govc). Comment-only: no executable code.
 
 //@ func (*VbIDRange).In
+//@ params v vbID
 //@ props C04
 //@ requires v != nil
 //@ ensures.range[C04] result == (v.Start <= vbID && vbID <= v.End)
 //@ modifies nothing
 
 //@ func NewEmptyCheckpointDocument
+//@ params bucketUUID
 //@ props C02
 //@ ensures.zero[C02] result != nil && fresh(result) && result.Checkpoint != nil && result.Checkpoint.Snapshot != nil && result.Checkpoint.VbUUID == 0 && result.Checkpoint.SeqNo == 0 && result.Checkpoint.Snapshot.StartSeqNo == 0 && result.Checkpoint.Snapshot.EndSeqNo == 0 && result.BucketUUID == bucketUUID
 //@ modifies nothing
